@@ -76,7 +76,7 @@ class FnSpec:
     substs: List[Tuple[str, str]] = field(default_factory=list)
     foreach: List[int] = field(default_factory=list)
     desugar_try: List[str] = field(default_factory=list)
-    loopify: List[Tuple[str, int]] = field(default_factory=list)   # (method, ordinal): iterator chains rewritten by rules R15..R18
+    loopify: List[Tuple[str, int, str]] = field(default_factory=list)   # (method, ordinal, element type or ''): iterator chains rewritten by rules R15..R18
     folds: List[int] = field(default_factory=list)          # ordinals of `.fold(` calls rewritten by rule R14
     scans: List[int] = field(default_factory=list)          # ordinals of `.position(` calls rewritten by rule R13   # ordinals of `?` operators (or `all`) rewritten by rule R10
     no_canary: bool = False
@@ -272,8 +272,11 @@ def parse(path: str) -> UnitSpec:
         elif head == "desugar_try":
             cur.desugar_try = rest.split()
         elif head == "loopify":
-            m = re.match(r"^(\w+)(?:#(\d+)|\s+(\d+))?$", rest)
-            cur.loopify.append((m.group(1), int(m.group(2) or m.group(3) or 1)))
+            m = re.match(r"^(\w+)(?:#(\d+)|\s+(\d+))?(?:\s*:\s*(.+))?$", rest, re.S)
+            if not m:
+                raise SpecError(f"{path}:{ln}: bad loopify entry")
+            # optional `: TYPE` names the element type where rustc cannot infer it from the generated loop (R19)
+            cur.loopify.append((m.group(1), int(m.group(2) or m.group(3) or 1), (m.group(4) or "").strip()))
         elif head == "fold":
             cur.folds += [int(x) for x in rest.split()]
         elif head == "scan":
